@@ -20,6 +20,7 @@ from props import exec_common as X
 from props import C05 as B
 
 ID = 'C10'
+CASE_TIMEOUT = 60   # per-case wall-clock limit of the driver's hang detection
 COQ_TARGETS = ['theories/Props/C10.vo', 'theories/Exec/FdTableCases.vo']
 IMPORTS = ('From PM Require Import Lib.Bytes Lib.ZDict Exec.Threadless Exec.ThreadlessOld Exec.ThreadlessCases Exec.FdTable Exec.FdTableCases.\n'
            'From Coq Require Import ZArith.')
